@@ -336,13 +336,17 @@ class RefMap:
             if not any(all(better(e.rule, j.rule) is True for j in js) for e in match_def)
         }
         must = bool(direct_def) or any(a.definite for a in mine)
-        ex.allow_404 = not must and not any(a.kind == "X" and a.definite for a in other)
+        # rules that definitely admit the path itself (no redirect needed) but for another method: exact
+        # admissions, and leaf rules that are not strict about slashes asked with the trailing slash.  (A
+        # non-strict *branch* rule asked without its slash is left open: DESIGN C03 MAY-region.)
+        other_def = [a for a in other if a.definite and (a.kind == "X" or (a.kind == "L" and not a.rule.trail))]
+        ex.allow_404 = not must and not other_def
         ex.allow_405 = not direct_def and bool(other)
         lo, hi = set(), set()
         for a in other:
             hi |= a.rule.methods
-            if a.kind == "X" and a.definite:
-                lo |= a.rule.methods
+        for a in other_def:
+            lo |= a.rule.methods
         ex.lo405, ex.hi405 = frozenset(lo), frozenset(hi)
         # does the documented order single out one result? (then it must not depend on insertion order)
         ex.decided = (len(ex.ok_match) + len(ex.ok_redirect) + int(ex.allow_404) + int(ex.allow_405) == 1
